@@ -239,6 +239,11 @@ func (f *Flat) errStatesFrom(A int, E types.Object, twins bool) ErrStates {
 						if !usesObj(info, rhs, c) {
 							continue
 						}
+						// an accumulator (failed = errors.Join(failed, err)) is not a twin: it stays non-nil over the
+						// following iterations, which run by design
+						if n.Synth == "" && c != y && usesObj(info, rhs, y) {
+							continue
+						}
 						if k, _, _ := keepsClass(info, rhs, c); k {
 							joined = append(joined, y)
 						}
